@@ -3,6 +3,7 @@
 package c15
 
 import (
+	"strings"
 	"bytes"
 	"crypto/cipher"
 	"fmt"
@@ -668,6 +669,100 @@ func workload4(res *core.Result, r *rand.Rand, link bool, order string, keyPrefi
 	res.Case(fmt.Sprintf("%sw4:%s:%s", keyPrefix, kind, order), true)
 }
 
+// workload5: key-setup events on a live session between sealed frames - the same key-exchange request served a
+// second time (a duplicated or replayed hello request), a client exchange that is started and never completed
+// (a handshake the peer refuses), a complete new exchange. Whatever happens to the keys, no (out key, class,
+// sequence number) may ever be used twice by a sender.
+func workload5(res *core.Result, r *rand.Rand, keyPrefix string) {
+	p := env.NewPair(r, "c15 w5")
+	encA, encB := p.AB.Encryption(), p.BA.Encryption()
+	type rec struct {
+		key  string
+		prio bool
+		seq  uint32
+	}
+	seen := map[rec]string{}
+	var history []string
+	ok := true
+	sealSome := func(from, to *env.Instance, sess *state.Session, enc *state.EncryptionSession, who string, n int) {
+		for i := 0; i < n && ok; i++ {
+			prio := i%3 == 2
+			mt := frame.SessionData
+			if prio {
+				mt = frame.RouterCtrl
+			}
+			f, err := from.BuilderV.NewFrameV1(from.IdentityV.IP, to.IdentityV.IP, mt, nil, []byte("c15-w5"), nil)
+			if err != nil {
+				return
+			}
+			if err := f.Seal(sess); err != nil {
+				f.ReturnToPool()
+				history = append(history, who+" cannot seal: "+err.Error())
+				return
+			}
+			k := rec{string(helper(enc).OutKey()), prio, f.SequenceNum()}
+			f.ReturnToPool()
+			if prev, dup := seen[k]; dup {
+				ok = false
+				res.Violate("sequence-number-repeated:after-key-setup-event", fmt.Sprintf("%s sealed a %s frame with sequence number %d under a key it had already used that number with (first use: %s); history: %s", who, map[bool]string{true: "priority", false: "regular"}[prio], k.seq, prev, strings.Join(history, "; ")), map[string]any{"case_id": "w5", "history": history})
+				return
+			}
+			seen[k] = fmt.Sprintf("%s after [%s]", who, strings.Join(history, "; "))
+		}
+	}
+	both := func(n int) {
+		sealSome(p.A, p.B, p.AB, encA, "A", n)
+		sealSome(p.B, p.A, p.BA, encB, "B", n)
+	}
+	both(5 + r.IntN(10))
+	// the request of a fresh exchange, kept so that it can be served twice
+	for step := 0; step < 6 && ok; step++ {
+		switch r.IntN(3) {
+		case 0:
+			kx, kxt, err := encA.InitKeyClientStart()
+			if err != nil {
+				history = append(history, "client start failed")
+				break
+			}
+			kx2, kxt2, err := encB.InitKeyServer(kx, kxt)
+			if err != nil {
+				history = append(history, "server refused")
+				break
+			}
+			history = append(history, "B serves a new request of A")
+			both(3 + r.IntN(6))
+			// the same request again (duplicate / replay), before or after A completed
+			if r.IntN(2) == 0 {
+				_ = encA.InitKeyClientComplete(kx2, kxt2)
+				history = append(history, "A completes")
+				both(3)
+			}
+			if _, _, err := encB.InitKeyServer(kx, kxt); err == nil {
+				history = append(history, "B serves the very same request again")
+			}
+			both(3 + r.IntN(6))
+		case 1:
+			if _, _, err := encA.InitKeyClientStart(); err == nil {
+				history = append(history, "A starts an exchange that is never completed")
+			}
+			both(3 + r.IntN(6))
+		default:
+			kx, kxt, err := encB.InitKeyClientStart()
+			if err == nil {
+				if kx2, kxt2, err := encA.InitKeyServer(kx, kxt); err == nil {
+					_ = encB.InitKeyClientComplete(kx2, kxt2)
+					history = append(history, "complete exchange started by B")
+				}
+			}
+			both(3 + r.IntN(6))
+		}
+	}
+	if ok {
+		res.Count("key_setup_event_histories", 1)
+		res.Case(fmt.Sprintf("%sw5:%s", keyPrefix, strings.Join(history, ";")), true)
+	}
+}
+
 func parallel(n int, fn func(w int)) {
 	var wg sync.WaitGroup
 	for w := 0; w < n; w++ {
@@ -760,6 +855,13 @@ func run(c *core.Ctx) {
 		r := core.RNG(fmt.Sprintf("c15/w4/%d", w))
 		for i := w; i < 2*len(orders); i += W {
 			workload4(res, r, i%2 == 1, orders[i/2], "")
+		}
+	})
+	// Workload 5: key-setup events between sealed frames.
+	parallel(W, func(w int) {
+		r := core.RNG(fmt.Sprintf("c15/w5/%d", w))
+		for i := w; i < c.Q(64, 1000); i += W {
+			workload5(res, r, "")
 		}
 	})
 	res.Sample(map[string]any{"workload": 4, "desc": "end-to-end pair, wraps in the order A->B, B->A, A->B; traffic in both directions after each"})
